@@ -31,11 +31,12 @@ type c10In struct {
 type c10Scenario struct {
 	Branches [][]c10Node `json:"branches"`
 	Groups   [][]c10In   `json:"groups"`
+	BatchS   int         `json:"batch_window_s"` // 0: stream edges; else the chains run on the batches of window().period(Ns).every(Ns)
 	Script   string      `json:"script"`
 	Config   string      `json:"config"`
 }
 
-var c10Kinds = []string{"where", "evalKeep", "evalOnly", "evalKeepList", "evalTag", "default", "delete", "shift", "sample", "derivative", "changeDetect", "stateCount", "stateDuration", "deleteDim", "changeDetectOpt", "stateDuration"}
+var c10Kinds = []string{"where", "evalKeep", "evalOnly", "evalKeepList", "evalTag", "default", "delete", "shift", "sample", "derivative", "changeDetect", "stateCount", "stateDuration", "deleteDim", "changeDetectOpt", "stateDuration", "whereCount", "evalCount"}
 
 // units of stateDuration, in milliseconds
 var c10Units = []int{1000, 2000, 60000, 500}
@@ -45,6 +46,11 @@ func (n c10Node) tick() string {
 	switch n.Kind {
 	case "where":
 		return fmt.Sprintf("|where(lambda: \"a\" > %d)", n.X)
+	case "whereCount":
+		// a stateful lambda function: its state belongs to the group
+		return fmt.Sprintf("|where(lambda: count() <= %d)", n.X+1)
+	case "evalCount":
+		return "|eval(lambda: count()).as('n').keep()"
 	case "evalKeep":
 		return fmt.Sprintf("|eval(lambda: \"a\" + %d).as('e1').keep()", n.X)
 	case "evalOnly":
@@ -90,6 +96,9 @@ func c10Gen(c *Ctx) *c10Scenario {
 	g := c.G
 	sc := &c10Scenario{}
 	nb := g.Range(2, 3)
+	if g.Chance(1, 3) {
+		sc.BatchS = g.Range(2, 4)
+	}
 	for b := 0; b < nb; b++ {
 		var chain []c10Node
 		n := g.Range(1, 3)
@@ -102,6 +111,17 @@ func c10Gen(c *Ctx) *c10Scenario {
 			}
 			if k == "shift" && len(chain) > 0 && chain[len(chain)-1].Kind == "shift" {
 				k = "sample" // shift cannot be chained on a shift node (the DSL rejects it at define time)
+			}
+			if sc.BatchS > 0 && (k == "sample" || k == "deleteDim" || k == "whereCount" || k == "evalCount") {
+				// not compared on batch edges: the documentation of sample speaks of "every third data point or batch",
+				// and a batch carries its dimensions in its begin message only
+				k = []string{"where", "derivative", "changeDetect", "stateCount"}[g.Intn(4)]
+				if dropped {
+					k = "shift"
+					if len(chain) > 0 && chain[len(chain)-1].Kind == "shift" {
+						break
+					}
+				}
 			}
 			if i == n-1 && !dropped && g.Chance(1, 8) {
 				k = "flatten" // creates dynamically named fields: only at the end of a chain
@@ -127,11 +147,18 @@ func c10Gen(c *Ctx) *c10Scenario {
 			t += []int{1, 1, 2, 0}[g.Intn(4)] // repeated timestamps: zero elapsed time for derivative
 			pts = append(pts, c10In{T: t, A: g.Intn(7), F: g.Intn(60) - 20, S: []string{"p", "q", ""}[g.Intn(3)], HasK: g.Bool(), C: g.Intn(4) - 1})
 		}
+		if sc.BatchS > 0 {
+			// a late point, so that the window holding the last points is emitted as well
+			pts = append(pts, c10In{T: t + 2*sc.BatchS, A: g.Intn(7), F: g.Intn(60) - 20, S: "p", C: -1})
+		}
 		sc.Groups = append(sc.Groups, pts)
 	}
 	var sb strings.Builder
 	// two group-by dimensions; h is unique per group, so deleting the dimension g leaves the partition unchanged
 	sb.WriteString("var s = stream\n    |from().measurement('m').groupBy('g', 'h')\n")
+	if sc.BatchS > 0 {
+		fmt.Fprintf(&sb, "    |window().period(%ds).every(%ds)\ns\n    |log().prefix('IN')\n", sc.BatchS, sc.BatchS)
+	}
 	for b, chain := range sc.Branches {
 		sb.WriteString("s\n")
 		for _, nd := range chain {
@@ -173,7 +200,45 @@ func (p c10P) canon() string {
 }
 
 // apply runs one node over one group's sequence (all listed nodes keep the group).
-func (n c10Node) apply(in []c10P) []c10P {
+func (n c10Node) apply(in []c10P) []c10P { return n.applyTo(in, false) }
+
+// c10B is one batch of one group.
+type c10B struct {
+	tmax int64
+	tags map[string]string
+	pts  []c10P
+}
+
+func (b c10B) canon() string {
+	var ts, ps []string
+	for _, k := range simrt.Keys(b.tags) {
+		ts = append(ts, fmt.Sprintf("%s=%q", k, b.tags[k]))
+	}
+	for _, p := range b.pts {
+		ps = append(ps, "    "+p.canon())
+	}
+	return fmt.Sprintf("batch tmax=%d tags[%s] %d points\n%s", b.tmax, strings.Join(ts, ","), len(b.pts), strings.Join(ps, "\n"))
+}
+
+// applyBatch: on a batch edge every node works on one batch at a time, with no memory of earlier batches; the batch keeps
+// its time (shift moves it) and its tags (default and delete apply to them as to the points' tags).
+func (n c10Node) applyBatch(b c10B) c10B {
+	out := c10B{tmax: b.tmax, tags: simrt.CloneMap(b.tags), pts: n.applyTo(b.pts, true)}
+	switch n.Kind {
+	case "shift":
+		out.tmax += int64(n.X + 1)
+	case "default":
+		if v, ok := out.tags["k"]; !ok || v == "" {
+			out.tags["k"] = "dk"
+		}
+	case "delete":
+		delete(out.tags, "k")
+	}
+	return out
+}
+
+// applyTo: endOfBatch tells flatten that no further point follows (a batch ends; a stream never does).
+func (n c10Node) applyTo(in []c10P, endOfBatch bool) []c10P {
 	var out []c10P
 	switch n.Kind {
 	case "where":
@@ -181,6 +246,18 @@ func (n c10Node) apply(in []c10P) []c10P {
 			if p.fields["a"].(int64) > int64(n.X) {
 				out = append(out, p)
 			}
+		}
+	case "whereCount":
+		for i, p := range in {
+			if i < n.X+1 {
+				out = append(out, p)
+			}
+		}
+	case "evalCount":
+		for i, p := range in {
+			q := p.clone()
+			q.fields["n"] = int64(i + 1)
+			out = append(out, q)
 		}
 	case "evalKeep":
 		for _, p := range in {
@@ -248,6 +325,9 @@ func (n c10Node) apply(in []c10P) []c10P {
 			for k, v := range p.fields {
 				cur.fields[p.tags["p"]+"."+k] = v
 			}
+		}
+		if endOfBatch && cur != nil {
+			out = append(out, *cur)
 		}
 	case "changeDetectOpt":
 		// consecutive duplicates of the field are discarded; a point without the field is neither emitted nor a change
@@ -410,6 +490,9 @@ func runC10(c *Ctx) Verdict {
 		}
 		return Fail("node-error", "a node reported an error on well-typed input: %s\nscript:\n%s", e, sc.Script)
 	}
+	if sc.BatchS > 0 {
+		return c10CheckBatch(c, sc, d)
+	}
 	trivial := true
 	for b, chain := range sc.Branches {
 		key := fmt.Sprintf("B%d", b)
@@ -479,6 +562,118 @@ func runC10(c *Ctx) Verdict {
 	return Pass()
 }
 
+func c10Input(gi int, p c10In, dims string) c10P {
+	q := c10P{tags: map[string]string{"g": fmt.Sprintf("g%d", gi), "h": fmt.Sprintf("h%d", gi), "p": fmt.Sprintf("p%d", p.A%2)}, fields: map[string]interface{}{"a": int64(p.A), "f": float64(p.F) / 10, "s": p.S}, t: int64(p.T), dims: dims}
+	if p.HasK {
+		q.tags["k"] = "kv"
+	}
+	if p.C >= 0 {
+		q.fields["c"] = int64(p.C)
+	}
+	return q
+}
+
+func c10Batch(bc *harness.BatchCopy, flat bool) c10B {
+	b := c10B{tmax: bc.TMaxNs / 1e9, tags: bc.Tags}
+	for _, p := range bc.Points {
+		q := c10P{tags: p.Tags, fields: p.Fields, t: p.TimeNs / 1e9}
+		if flat {
+			q.tags = map[string]string{"h": p.Tags["h"]}
+		}
+		b.pts = append(b.pts, q)
+	}
+	return b
+}
+
+// c10CheckBatch: the batch form.  The batches the window node produced are observed on a branch of their own ('IN'); each of
+// them must hold the written points of its group and period, and every branch must show, batch by batch and in order, the
+// documented transformation of those points.
+func c10CheckBatch(c *Ctx, sc *c10Scenario, d *harness.Daemon) Verdict {
+	script := sc.Script
+	wins := map[string][]c10B{} // per group: the input batches, rebuilt from the written points
+	for _, o := range d.Sinks.Get("IN") {
+		if o.BCopy == nil {
+			return Fail("harness/unexpected-point", "the window node produced a point")
+		}
+		h := o.BCopy.Tags["h"]
+		var gi int
+		fmt.Sscanf(h, "h%d", &gi)
+		if gi < 0 || gi >= len(sc.Groups) {
+			return Fail("transformation", "a batch of an unknown group %q", h)
+		}
+		tmax := o.BCopy.TMaxNs / 1e9
+		in := c10B{tmax: tmax, tags: map[string]string{"g": fmt.Sprintf("g%d", gi), "h": h}}
+		for _, p := range sc.Groups[gi] {
+			if int64(p.T) >= tmax-int64(sc.BatchS) && int64(p.T) < tmax {
+				in.pts = append(in.pts, c10Input(gi, p, ""))
+			}
+		}
+		if got := c10Batch(o.BCopy, false); got.canon() != in.canon() {
+			v := Fail("aliasing/sibling-visible", "the batch of group %s ending at %ds, as a branch that only logs it saw it, is not the written data (a sibling branch changed the shared message in place, or the window is wrong)\nseen:    %s\nwritten: %s\nscript:\n%s", h, tmax, got.canon(), in.canon(), script)
+			v.Shape = map[string]interface{}{"clause": "aliasing", "batch": true}
+			return v
+		}
+		if live := c10Batch(harness.CopyBufferedBatch(o.Batch), false); live.canon() != in.canon() {
+			v := Fail("aliasing/mutated-after-delivery", "the batch of group %s ending at %ds was modified after the logging branch saw it\nwhen seen: %s\nat the end: %s\nscript:\n%s", h, tmax, in.canon(), live.canon(), script)
+			v.Shape = map[string]interface{}{"clause": "aliasing", "batch": true}
+			return v
+		}
+		wins[h] = append(wins[h], in)
+	}
+	trivial := true
+	for b, chain := range sc.Branches {
+		flat := chain[len(chain)-1].Kind == "flatten"
+		got := map[string][]string{}
+		for _, o := range d.Sinks.Get(fmt.Sprintf("B%d", b)) {
+			if o.BCopy == nil {
+				return Fail("transformation", "branch %d of a batch pipeline produced a point\nscript:\n%s", b, script)
+			}
+			seen := c10Batch(o.BCopy, flat)
+			if live := c10Batch(harness.CopyBufferedBatch(o.Batch), flat); live.canon() != seen.canon() {
+				v := Fail("aliasing/mutated-after-delivery", "a batch delivered to branch %d was modified afterwards\nwhen seen: %s\nat the end: %s\nscript:\n%s", b, seen.canon(), live.canon(), script)
+				v.Shape = map[string]interface{}{"clause": "aliasing", "batch": true}
+				return v
+			}
+			if o.BCopy.Name != "m" {
+				return Fail("transformation", "branch %d: a batch named %q, the input is named m\nscript:\n%s", b, o.BCopy.Name, script)
+			}
+			got[o.BCopy.Tags["h"]] = append(got[o.BCopy.Tags["h"]], seen.canon())
+		}
+		for gi := range sc.Groups {
+			h := fmt.Sprintf("h%d", gi)
+			var want []string
+			for _, in := range wins[h] {
+				cur := in
+				for _, nd := range chain {
+					cur = nd.applyBatch(cur)
+				}
+				if flat {
+					for i := range cur.pts {
+						cur.pts[i].tags = map[string]string{"h": h}
+					}
+				}
+				if len(cur.pts) > 0 {
+					trivial = false
+				}
+				want = append(want, cur.canon())
+			}
+			if g := got[h]; strings.Join(g, "\n") != strings.Join(want, "\n") {
+				var kinds []string
+				for _, nd := range chain {
+					kinds = append(kinds, nd.tick())
+				}
+				v := Fail("transformation", "branch %d (%s) group g%d, batch edges: output differs from the documented transformation of the window's batches.\n  missing:\n%s\n  unexpected:\n%s\nscript:\n%s", b, strings.Join(kinds, " "), gi, diffLines(want, g), diffLines(g, want), script)
+				v.Shape = map[string]interface{}{"clause": "transformation", "nodes": strings.Join(kindsOf(chain), "+"), "batch": true}
+				return v
+			}
+		}
+	}
+	if trivial {
+		c.Trivial = true
+	}
+	return Pass()
+}
+
 func kindsOf(chain []c10Node) []string {
 	var ks []string
 	for _, n := range chain {
@@ -498,10 +693,10 @@ func init() {
 	Register(&Prop{
 		ID:  "C10",
 		Run: runC10,
-		Rule: "case = a stem from().groupBy('g','h') forked into 2-3 sibling branches (each its own goroutines), every branch a chain of 1-3 nodes from where, eval (as + keep() / keep(list) / no keep / tags()), default, delete (fields, tags, and the first group-by dimension), shift, sample, derivative (unit, nonNegative, as), changeDetect (also on a field that some points lack), stateCount, stateDuration (units 500ms/1s/2s/1m), flatten().on(tag) as a last node, with generated parameters; outputs are compared with their group-by dimensions, over 1-3 groups of 1-8/16 points (int, float and string fields, an optional tag, repeated timestamps), one concurrent writer per group; " +
+		Rule: "case = a stem from().groupBy('g','h') forked into 2-3 sibling branches (each its own goroutines), every branch a chain of 1-3 nodes from where, eval (as + keep() / keep(list) / no keep / tags()), default, delete (fields, tags, and the first group-by dimension), shift, sample, derivative (unit, nonNegative, as), changeDetect (also on a field that some points lack), stateCount, stateDuration (units 500ms/1s/2s/1m), flatten().on(tag) as a last node, where/eval with the stateful lambda function count(), with generated parameters; in a third of the cases the chains run on batch edges (below window().period(Ns).every(Ns), N 2-4: each batch must be the transformation of the written points of its group and period, with batch time and tags); outputs are compared with their group-by dimensions, over 1-3 groups of 1-8/16 points (int, float and string fields, an optional tag, repeated timestamps), one concurrent writer per group; " +
 			"non-trivial = the reference produces output on some branch; distinct = distinct (scenario, interleaving signature) pairs",
 		Real:        []string{"WhereNode, EvalNode, DefaultNode, DeleteNode, ShiftNode, SampleNode, DerivativeNode, ChangeDetectNode, StateTracking nodes", "edge forwarding (the same message object goes to every child edge), GroupedConsumer, tick/stateful", "FromNode/groupBy, LogNode, TaskMaster, httpd write endpoint"},
 		Stub:        []string{"log sink at the end of every branch: keeps a deep copy taken on arrival and the live message"},
-		Assumptions: []string{"the reference interpreter follows the node documentation in pipeline/*.go", "flatten only as the last node of a chain and compared by time and fields; combine, groupBy re-grouping and the batch forms of these nodes are not covered", "whether a sibling's in-place mutation is visible depends on which branch runs first, which is what the simulator varies"},
+		Assumptions: []string{"the reference interpreter follows the node documentation in pipeline/*.go", "flatten only as the last node of a chain and compared by time and fields; combine and groupBy re-grouping are not covered; on batch edges sample (documented as 'every third data point or batch') and the deletion of a group-by dimension are left out", "whether a sibling's in-place mutation is visible depends on which branch runs first, which is what the simulator varies"},
 	})
 }
